@@ -25,8 +25,8 @@ def sh(cmd, cwd=WT, timeout=1500, env=ENV):
     return p.returncode, p.stdout
 
 
-FLAKY = ("TestTraversalBytes", "TestNeighborhoodDepth", "TestCopyBuffer", "TestKademlia_SubscribePeersChange", "TestService_FindRouteLoopBack")
-FLAKY_PKGS = ("pkg/traversal", "pkg/topology/kademlia", "aurorafs/pkg/file ", "pkg/routetab")
+FLAKY = ("TestBlocksAfterFlagTimeout", "TestOracle", "TestTraversalBytes", "TestNeighborhoodDepth", "TestCopyBuffer", "TestKademlia_SubscribePeersChange", "TestService_FindRouteLoopBack")
+FLAKY_PKGS = ("pkg/blocker", "pkg/traversal", "pkg/topology/kademlia", "aurorafs/pkg/file ", "pkg/routetab")
 
 
 def verdicts(out):
